@@ -41,6 +41,8 @@ func init() {
 			{Name: "validate-one-kind-dropped", File: "scalibr.go", Old: "	for _, p := range cfg.Detectors {\n		plugins = append(plugins, p)\n	}\n", New: "", Rule: "D3-validate-all", Site: "Detectors"},
 			{Name: "dup-name-two-registries", File: "extractor/standalone/containers/containerd/containerd_linux.go", Old: `Name = "containers/containerd-runtime"`, New: `Name = "containers/containerd"`, Rule: "D2-unique", Site: "name:containers/containerd"},
 			{Name: "concat-merges", File: "extractor/filesystem/list/list.go", Old: "maps.Copy(result, m)", New: "for k, v := range m {\n\t\t\tresult[k] = append(result[k], v...)\n\t\t}", Rule: "D2-groups", Site: "extractor/filesystem/list.concat"},
+			{Name: "filter-early-return", File: "extractor/standalone/list/list.go", Old: "	result := []standalone.Extractor{}\n	for _, ex := range exs {", New: "	result := []standalone.Extractor{}\n	if !capabs.RunningSystem {\n		return result\n	}\n	for _, ex := range exs {", Rule: "D3-filter", Site: "standalone/list.FilterByCapabilities"},
+			{Name: "enabled-set-records-detector-name", File: "scalibr.go", Old: "			enabledExtractors[e] = struct{}{}\n", New: "			enabledExtractors[d.Name()] = struct{}{}\n", Rule: "D6-enable", Site: "EnableRequiredExtractors"},
 		},
 	})
 }
